@@ -156,6 +156,10 @@ def evaluate(case) -> Result:
 
         note_sync_refusals()
         observe(-1)
+        busy = None
+        if case.get("busy_peer2"):
+            busy = w.handshake_in("peer2.example", auth=[4], ip="10.1.1.2", hbh=0x2f0)
+            res.classes.append("other-peer-busy")
         for i, ev in enumerate(case["events"]):
             kind = ev[0]
             cur = None
@@ -167,6 +171,10 @@ def evaluate(case) -> Result:
             if kind == "ADV":
                 # step second by second so that every dial is observed at its own instant
                 for _ in range(ev[1]):
+                    if busy is not None and not busy.node_closed:
+                        # another peer keeps talking: the I/O loop never sits out a whole wake-up interval
+                        hbh += 1
+                        w.feed_msg(busy, {"k": "DWR", "host": "peer2.example", "hbh": hbh, "e2e": hbh})
                     w.advance(1)
                     note_sync_refusals()
                     observe(i)
@@ -361,7 +369,7 @@ def shard_main(shard, nshards, tier, scale):
                        st.tuples(st.just("DPR")), st.tuples(st.just("DPR")), st.tuples(st.just("DWA")), st.tuples(st.just("DPR_CLOSE")))
         plan = draw(st.lists(st.sampled_from(["ok", "inprogress", "inprogress", ["sync-error", 111], ["sync-error", 101]]),
                              max_size=6))
-        return {"flags": flags, "dial_plan": plan, "seed": draw(st.integers(0, 3)), "spell": draw(st.sampled_from([None, None, "PEER1.Example"])),
+        return {"flags": flags, "dial_plan": plan, "seed": draw(st.integers(0, 3)), "spell": draw(st.sampled_from([None, None, "PEER1.Example"])), "busy_peer2": draw(st.booleans()),
                 "events": [list(e) for e in draw(st.lists(ev, min_size=1, max_size=30))]}
 
     def body(case):
@@ -445,7 +453,8 @@ def shard_main(shard, nshards, tier, scale):
     for (lk, persistent, always, wait, wake) in jobs[shard::nshards]:
         ev = list(losses[lk]) + [["ADV", wait + wake + 3]] + list(losses[lk]) + [["ADV", wait + wake + 3]]
         case = {"flags": {"persistent": persistent, "always": always, "wait": wait, "addr": True, "wakeup": wake},
-                "dial_plan": [["sync-error", 111]] * 2 if lk == "sync-refused" else [], "events": ev}
+                "dial_plan": [["sync-error", 111]] * 2 if lk == "sync-refused" else [], "events": ev,
+                "busy_peer2": (wait + wake) % 2 == 0}
         res = evaluate(case)
         res.classes += ["systematic", f"loss:{lk}"]
         record(rec, case, res, evaluate, "events", shrunk)
@@ -461,7 +470,7 @@ def run(tier, scale=1.0):
     rec = Recorder(PID)
     for d in hyp.pool_run(shard_main, (tier, scale)):
         rec.merge(d)
-    required = {"second-connection-by-the-peer": 1, "identity:respelled": 1, "stop-race-schedule": 1, "persistent:True": 1, "persistent:False": 1, "always:True": 1, "addr:False": 1, "losses:2": 1,
+    required = {"other-peer-busy": 1, "second-connection-by-the-peer": 1, "identity:respelled": 1, "stop-race-schedule": 1, "persistent:True": 1, "persistent:False": 1, "always:True": 1, "addr:False": 1, "losses:2": 1,
                 "dpr-on-ready": 1, "dwa-event": 1, "dwr-outstanding-at-dpr": 1, "reason-dpr": 1, "dials:3": 1, "loss:sync-refused": 1, "loss:cea-timeout": 1}
     return finish(rec, tier=tier, level="exploration", rule=RULE, assumptions=ASSUME, t0=t0,
                   required_classes=required)
